@@ -430,7 +430,7 @@ func runC06(c *Ctx) {
 			}
 		}
 		for _, r := range Returns(dp) {
-			judge(r.Results[0], r, 0)
+			judge(ReturnOperand(r, 0), r, 0)
 		}
 		okAtomic = okAtomic && sawTrue
 		c.Check(FuncKey(dp)+"::atomic-decrement-reaching-zero", dp.Pos(), okAtomic, "DecrementPending reports true exactly for the atomic decrement that makes pending zero")
